@@ -182,10 +182,16 @@ var pageContexts = []pageContext{
 }
 
 // pageInContext: the page of a `page` correspondence case, wrapped; nil when the case is not a plain page over map data
-func pageInContext(c *Case, ctx pageContext) *Case {
+func pageInContext(c *Case, ctx pageContext) (out *Case) {
 	if c == nil || c.Input["op"] != "page" {
 		return nil
 	}
+	// data that the Val encoding cannot be turned back into Go values for (a pointer to an untyped nil …): no variant
+	defer func() {
+		if e := recover(); e != nil {
+			out = nil
+		}
+	}()
 	files, ok := c.Input["src"].(map[string]string)
 	page, _ := c.Input["page"].(string)
 	if !ok || page == "" || strings.HasPrefix(files[page], "---") {
